@@ -53,6 +53,7 @@ def scopes(tier):
         ("movepkg", sc("WorldsMovePkg", "import,importas,from,fromas,rel", 2, 1, 3, mg, qforms="import,from,rel",
                        qsize=one)),
         ("movesib", sc("WorldsMoveSib", "import", 2, 1, 3, mg, MaxChain=2)),
+        ("relocdeep", sc("WorldsRelocDeep", "import,from", 1, 1, 2, mg + rl, features=("reloutside",))),
         ("reloc", sc("WorldsReloc", "import,importas,from,fromas,rel", 2, 1, 3, rl, qforms="import,importas,from,fromas,rel",
                      qsize=one)),
         ("relocinit", sc("WorldsRelocInit", "import,importas,from,fromas", 2, 1, 3, rl, qforms="import,from")),
@@ -72,7 +73,7 @@ def scopes(tier):
 def quick_limit(name):
     """the quick tier replays every program of at most two statements and, per scope, this many
     larger ones (seeded); the small sibling-name scope is replayed completely"""
-    return 1000 if name == "movesib" else 60
+    return 1000 if name in ("movesib", "relocdeep") else 60
 
 
 def act_key(act):
@@ -81,13 +82,16 @@ def act_key(act):
                          or ("->" + ".".join(act.get("new") or act.get("dest") or [])))
 
 
-def variant(act):
-    """a finer class of request for finding keys: a module moved to the project root"""
-    return "to-root" if act["name"] == "MoveModule" and not act["dest"] else ""
+def variant(act, prog):
+    """a finer class of request for finding keys: what a MoveModule request moves and where to"""
+    if act["name"] != "MoveModule":
+        return ""
+    is_pkg = any(m["m"] == act["m"] and m["pkg"] for m in prog["mods"])
+    return ("pkg" if is_pkg else "mod") + ("-to-root" if not act["dest"] else "")
 
 
 def acts_of(prog, consts, rnd, tier="quick"):
-    return [dict(r["act"], layout=r["layout"], probe=r["probe"], variant=variant(r["act"])) for r in
+    return [dict(r["act"], layout=r["layout"], probe=r["probe"], variant=variant(r["act"], prog)) for r in
             sorted(prog["requests"], key=lambda r: act_key(r["act"]))]
 
 
@@ -156,7 +160,7 @@ def replay_program(item):
     exp_lines = {pm.apath(o["m"]): pm.spec_lines(o) for o in prog["obs"]}
     exp_err = {pm.apath(o["m"]): o["err"] for o in prog["obs"]}
     want_names = {a: sorted(v) for a, v in exp_names.items()}
-    legal = {act_key(r["act"]): dict(r["act"], layout=r["layout"], probe=r["probe"], variant=variant(r["act"]))
+    legal = {act_key(r["act"]): dict(r["act"], layout=r["layout"], probe=r["probe"], variant=variant(r["act"], prog))
              for r in prog["requests"]}
     out = {"fails": [], "counts": {}, "machinery": None, "n_actions": 0, "scope": item["scope"],
            "pkey": pm.prog_key(prog), "akeys": [act_key(a) for a in item["acts"]], "sample": None}
